@@ -30,6 +30,7 @@ const (
 	c13ClassFileTemp       = "C13-file-temp-suffix-key-clobbered"
 	c13ClassFileLong       = "C13-file-rejected-put-leaves-directory"
 	c13ClassStall          = "C13-paged-listing-stalls-on-empty-entry"
+	c13ClassOmitPending    = "C13-raft-txn-list-omits-pending-key-equal-to-prefix"
 )
 
 type c13Fail struct {
@@ -41,20 +42,20 @@ type c13Fail struct {
 }
 
 type c13Run struct {
-	st            *c13Stack
-	model         *c13Model
-	txModel       *c13Model
-	tx            c13Tx
-	txRO          bool
-	txIrregular   bool // the open transaction accepted a write to an irregular key
-	skip          bool // inside a block that a non-transactional stack does not execute
-	roReads       bool // inside a read-only block on a non-transactional stack: reads only
-	obs           map[string]int
-	unclean       bool // a key/prefix that is not in path.Clean form was handed to the stack
-	putRejected   bool // a put was rejected by the stack (tolerated: irregular key)
-	underscoreSeg bool // a key with a segment starting with "_" was handed to the stack
-	tempSeg       bool // a key with a segment ending in ".temp" was handed to the stack
-	done          []c13Op
+	st           *c13Stack
+	model        *c13Model
+	txModel      *c13Model
+	tx           c13Tx
+	txRO         bool
+	txIrregular  bool // the open transaction accepted a write to an irregular key
+	skip         bool // inside a block that a non-transactional stack does not execute
+	roReads      bool // inside a read-only block on a non-transactional stack: reads only
+	obs          map[string]int
+	unclean      bool            // the stack accepted an operation on a key/prefix that is not in path.Clean form
+	seen         map[string]bool // keys of operations the stack accepted
+	handed       map[string]bool // keys of all operations handed to the stack
+	rejectedPuts []string        // keys of puts the stack rejected (tolerated: irregular key)
+	done         []c13Op
 }
 
 func (r *c13Run) kv() c13KV {
@@ -72,20 +73,13 @@ func (r *c13Run) cur() *c13Model {
 }
 
 func (r *c13Run) note(k string) {
+	if r.handed == nil {
+		r.handed = map[string]bool{}
+	}
+	r.handed[k] = true
 	if r.tx != nil && c13Irregular(k) {
 		// reads and writes alike become part of what the transaction submits
 		r.txIrregular = true
-	}
-	if c13Unclean(k) {
-		r.unclean = true
-	}
-	for _, s := range strings.Split(k, "/") {
-		if strings.HasPrefix(s, "_") {
-			r.underscoreSeg = true
-		}
-		if strings.HasSuffix(s, ".temp") {
-			r.tempSeg = true
-		}
 	}
 }
 
@@ -95,17 +89,94 @@ func (r *c13Run) notePrefix(p string) {
 	}
 }
 
+// accepted records that the stack performed an operation on k without an error.
+func (r *c13Run) accepted(k string) {
+	if c13Unclean(k) {
+		r.unclean = true
+	}
+	if r.seen == nil {
+		r.seen = map[string]bool{}
+	}
+	r.seen[k] = true
+}
+
+func (r *c13Run) acceptedPrefix(p string) {
+	if p != "" {
+		r.accepted(strings.TrimSuffix(p, "/"))
+	}
+}
+
+// underscorePair: the stack was handed two keys P/_n/... and P/n — on the file
+// backend the directory of the first and the file of the second have one name.
+func (r *c13Run) underscorePair() bool {
+	for k1 := range r.handed {
+		s1 := strings.Split(k1, "/")
+		for i := 0; i+1 < len(s1); i++ {
+			if strings.HasPrefix(s1[i], "_") && r.handed[strings.Join(append(append([]string{}, s1[:i]...), s1[i][1:]), "/")] {
+				return true
+			}
+		}
+	}
+	return false
+}
+
+// tempPair: the stack was handed a key k and the key k+".temp" (the file backend
+// writes k through a temporary file of exactly that name).
+func (r *c13Run) tempPair() bool {
+	for k := range r.handed {
+		if strings.HasSuffix(k, ".temp") && r.handed[strings.TrimSuffix(k, ".temp")] {
+			return true
+		}
+	}
+	return false
+}
+
+// leftoverDirs: known file-backend signature — a listing is exactly what the model
+// gives if (some of) the directories on the path of puts that the backend
+// rejected exist as empty folders.
+func (r *c13Run) leftoverDirs(m *c13Model, prefix string, same func(alt *c13Model) bool) bool {
+	if r.st.base != "file" || len(r.rejectedPuts) == 0 {
+		return false
+	}
+	var dirs []string
+	seen := map[string]bool{}
+	for _, k := range r.rejectedPuts {
+		i := strings.LastIndexByte(k, '/')
+		if i < 0 {
+			continue
+		}
+		d := k[:i+1]
+		if d != prefix && strings.HasPrefix(d, prefix) && !seen[d] {
+			seen[d] = true
+			dirs = append(dirs, d)
+		}
+	}
+	if len(dirs) == 0 || len(dirs) > 6 {
+		return false
+	}
+	for mask := 1; mask < 1<<len(dirs); mask++ {
+		alt := m.clone()
+		for i, d := range dirs {
+			if mask&(1<<i) != 0 {
+				alt.put(d+"\x00left-over", nil)
+			}
+		}
+		if same(alt) {
+			return true
+		}
+	}
+	return false
+}
+
 // class narrows a generic class to a known signature where the witness matches it.
 func (r *c13Run) class(generic string) string {
 	if r.st.base == "file" {
 		switch {
 		case r.unclean:
 			return c13ClassFileAlias
-		case r.putRejected:
-			return c13ClassFileLong
-		case r.underscoreSeg:
+		case r.underscorePair():
 			return c13ClassFileUnderscore
-		case r.tempSeg:
+		case r.tempPair():
 			return c13ClassFileTemp
 		}
 	}
@@ -132,6 +203,7 @@ func (r *c13Run) checkGet(opid string, kv c13KV, m *c13Model, k string) *c13Fail
 		}
 		return r.unexpectedErr(opid, c13Op{Kind: "get", Key: k}, err)
 	}
+	r.accepted(k)
 	want, ok := m.get(k)
 	switch {
 	case ok && !found:
@@ -160,8 +232,15 @@ func (r *c13Run) checkList(opid string, got []string, err error, m *c13Model, pr
 		}
 		return r.unexpectedErr(opid, c13Op{Kind: "list", Prefix: prefix}, err)
 	}
+	r.acceptedPrefix(prefix)
 	want := m.children(prefix)
 	if !c13EqualStrings(c13Sorted(got), want) {
+		if !r.unclean && r.leftoverDirs(m, prefix, func(alt *c13Model) bool { return c13EqualStrings(c13Sorted(got), alt.children(prefix)) }) {
+			return r.fail(c13ClassFileLong, opid, fmt.Sprintf("list(%s) = %s, the immediate children are %s: the extra folders are what a rejected put (%s) left behind", c13Q(prefix), c13QL(got), c13QL(want), c13QL(r.rejectedPuts)), want, got)
+		}
+		if r.pendingKeyOmitted(m, prefix, func(alt *c13Model) bool { return c13EqualStrings(c13Sorted(got), alt.children(prefix)) }) {
+			return r.fail(c13ClassOmitPending, opid, fmt.Sprintf("list(%s) inside a transaction = %s, the immediate children are %s: the key %s written in this transaction is listed as the entry \"\" by every non-transactional listing", c13Q(prefix), c13QL(got), c13QL(want), c13Q(prefix)), want, got)
+		}
 		return r.fail(r.class("C13-list-mismatch"), opid, fmt.Sprintf("list(%s) = %s, the immediate children are %s", c13Q(prefix), c13QL(got), c13QL(want)), want, got)
 	}
 	if !sort.StringsAreSorted(got) {
@@ -190,6 +269,7 @@ func (r *c13Run) checkPage(opid string, got []string, err error, m *c13Model, pr
 		}
 		return r.unexpectedErr(opid, o, err)
 	}
+	r.acceptedPrefix(prefix)
 	want := m.page(prefix, after, limit)
 	full := r.st.physPrefix + prefix
 	joined := path.Join(full, after)
@@ -206,6 +286,12 @@ func (r *c13Run) checkPage(opid string, got []string, err error, m *c13Model, pr
 			case !outside && joined > full+after:
 				class = c13ClassMisseek
 			}
+		}
+		if r.pendingKeyOmitted(m, prefix, func(alt *c13Model) bool { return c13EqualStrings(got, alt.page(prefix, after, limit)) }) {
+			class = c13ClassOmitPending
+		}
+		if !r.unclean && r.leftoverDirs(m, prefix, func(alt *c13Model) bool { return c13EqualStrings(got, alt.page(prefix, after, limit)) }) {
+			class = c13ClassFileLong
 		}
 		where := ""
 		if inTx {
@@ -257,6 +343,25 @@ func (r *c13Run) checkPage(opid string, got []string, err error, m *c13Model, pr
 		}
 	}
 	return nil
+}
+
+// pendingKeyOmitted: known raft signature — inside a raft transaction, a key that
+// is equal to the listed prefix (its entry name is "") and that was first
+// written in this transaction is missing, and the result is exactly what the
+// model gives without that key.
+func (r *c13Run) pendingKeyOmitted(m *c13Model, prefix string, same func(alt *c13Model) bool) bool {
+	if r.st.base != "raft" || r.tx == nil || m != r.txModel {
+		return false
+	}
+	if _, ok := m.m[prefix]; !ok {
+		return false
+	}
+	if _, committed := r.model.m[prefix]; committed {
+		return false
+	}
+	alt := m.clone()
+	alt.del(prefix)
+	return same(alt)
 }
 
 func c13SubSeq(sub, all []string) bool {
@@ -636,7 +741,7 @@ func (r *c13Run) exec(ops []c13Op, i int) *c13Fail {
 			if c13Irregular(o.Key) || r.txRO {
 				r.obs["rejected"]++
 				if o.Kind == "put" {
-					r.putRejected = true
+					r.rejectedPuts = append(r.rejectedPuts, o.Key)
 				}
 				if r.txRO {
 					r.obs["rotxn_write_rejected"]++
@@ -646,9 +751,7 @@ func (r *c13Run) exec(ops []c13Op, i int) *c13Fail {
 			}
 			return r.unexpectedErr(opid, o, err)
 		}
-		if r.tx != nil && c13Irregular(o.Key) {
-			r.txIrregular = true
-		}
+		r.accepted(o.Key)
 		if r.txRO {
 			return r.fail(r.class("C13-rotxn-write-accepted"), opid, fmt.Sprintf("%s was accepted inside a read-only transaction", o), "error", nil)
 		}
@@ -781,7 +884,12 @@ func (r *c13Run) sweep(seq *c13Seq) *c13Fail {
 }
 
 // c13RunOne applies ops to a fresh instance of the stack.
-func c13RunOne(env *c13BaseEnv, layer string, seq *c13Seq, ops []c13Op, withSweep bool) (*c13Run, *c13Fail) {
+// Failures of these classes are failures of a read path with a precise known
+// signature; the stack's state still agrees with the model, so the run goes on
+// (one witness per class and run) instead of ending at the first of them.
+var c13SoftClasses = map[string]bool{c13ClassFileLong: true, c13ClassF4: true, c13ClassMisseek: true, c13ClassOmitPending: true, c13ClassStall: true}
+
+func c13RunOne(env *c13BaseEnv, layer string, seq *c13Seq, ops []c13Op, withSweep bool) (*c13Run, []*c13Fail) {
 	r := &c13Run{model: c13NewModel(), obs: map[string]int{}}
 	raw, dump, err := env.fresh()
 	if err == nil {
@@ -789,7 +897,7 @@ func c13RunOne(env *c13BaseEnv, layer string, seq *c13Seq, ops []c13Op, withSwee
 	}
 	if err != nil {
 		r.st = &c13Stack{name: env.name + "/" + layer, base: env.name}
-		return r, r.fail("C13-setup-failed", "setup", fmt.Sprintf("building the stack on an empty base failed: %v", c13Short(err.Error())), nil, err.Error())
+		return r, []*c13Fail{r.fail("C13-setup-failed", "setup", fmt.Sprintf("building the stack on an empty base failed: %v", c13Short(err.Error())), nil, err.Error())}
 	}
 	defer func() {
 		if r.tx != nil {
@@ -797,17 +905,32 @@ func c13RunOne(env *c13BaseEnv, layer string, seq *c13Seq, ops []c13Op, withSwee
 			r.tx = nil
 		}
 	}()
+	var fails []*c13Fail
+	add := func(f *c13Fail) (stop bool) {
+		if f == nil {
+			return false
+		}
+		if !c13SoftClasses[f.Class] {
+			fails = append(fails, f)
+			return true
+		}
+		for _, o := range fails {
+			if o.Class == f.Class {
+				return false
+			}
+		}
+		fails = append(fails, f)
+		return false
+	}
 	for i := range ops {
-		if f := r.guarded(fmt.Sprintf("op%d", ops[i].ID), ops[i].String(), func() *c13Fail { return r.exec(ops, i) }); f != nil {
-			return r, f
+		if add(r.guarded(fmt.Sprintf("op%d", ops[i].ID), ops[i].String(), func() *c13Fail { return r.exec(ops, i) })) {
+			return r, fails
 		}
 	}
 	if withSweep {
-		if f := r.guarded("sweep:panic", "read-back sweep", func() *c13Fail { return r.sweep(seq) }); f != nil {
-			return r, f
-		}
+		add(r.guarded("sweep:panic", "read-back sweep", func() *c13Fail { return r.sweep(seq) }))
 	}
-	return r, nil
+	return r, fails
 }
 
 // guarded turns a panic of the code under test (on this goroutine) into a failure.
@@ -825,16 +948,27 @@ func (r *c13Run) guarded(opid, what string, fn func() *c13Fail) (f *c13Fail) {
 func c13Shrink(env *c13BaseEnv, layer string, seq *c13Seq, ops []c13Op, f *c13Fail) ([]c13Op, *c13Fail) {
 	cur, curFail := ops, f
 	sweep := strings.HasPrefix(f.OpID, "sweep:")
-	budget := 120
+	own := strings.SplitN(f.OpID, ":", 2)[0]
+	budget := 150
 	for i := len(cur) - 1; i >= 0 && budget > 0; i-- {
-		if strings.HasPrefix(f.OpID, fmt.Sprintf("op%d", cur[i].ID)) && (len(f.OpID) == len(fmt.Sprintf("op%d", cur[i].ID)) || f.OpID[len(fmt.Sprintf("op%d", cur[i].ID))] == ':') {
+		if own == fmt.Sprintf("op%d", cur[i].ID) {
 			continue
 		}
 		cand := append(append([]c13Op{}, cur[:i]...), cur[i+1:]...)
 		budget--
-		_, nf := c13RunOne(env, layer, seq, cand, sweep)
-		if nf != nil && nf.Class == f.Class && nf.OpID == f.OpID {
-			cur, curFail = cand, nf
+		_, nfs := c13RunOne(env, layer, seq, cand, sweep)
+		for _, nf := range nfs {
+			if nf.Class == f.Class && nf.OpID == f.OpID {
+				cur, curFail = cand, nf
+				break
+			}
+		}
+	}
+	// drop everything after the failing operation
+	for i := range cur {
+		if own == fmt.Sprintf("op%d", cur[i].ID) {
+			cur = cur[:i+1]
+			break
 		}
 	}
 	return cur, curFail
@@ -861,7 +995,7 @@ func c13Family(t *testing.T, name string, env *c13BaseEnv, layersFor func(seq *c
 			if !kit.WantCase(caseID) {
 				continue
 			}
-			run, f := c13RunOne(env, layer, seq, seq.Ops, true)
+			run, fails := c13RunOne(env, layer, seq, seq.Ops, true)
 			r.Eval(1)
 			r.Count("runs:"+layer, 1)
 			for k, v := range run.obs {
@@ -875,7 +1009,7 @@ func c13Family(t *testing.T, name string, env *c13BaseEnv, layersFor func(seq *c
 			if run.obs["page_after_cuts"] > 0 && run.obs["list_folder_collapsed"] > 0 {
 				r.Nontrivial(caseID)
 			}
-			if f == nil {
+			if len(fails) == 0 {
 				if samples < 3 && run.obs["page_after_cuts"] > 0 && run.obs["txn_commit_with_writes"] > 0 {
 					samples++
 					ops := seq.opStrings(seq.Ops)
@@ -886,15 +1020,17 @@ func c13Family(t *testing.T, name string, env *c13BaseEnv, layersFor func(seq *c
 				}
 				continue
 			}
-			ops := seq.Ops
-			if kit.OnlyCase() == "" && shrunk[f.Class] < 3 && f.OpID != "setup" {
-				shrunk[f.Class]++
-				ops, f = c13Shrink(env, layer, seq, seq.Ops, f)
+			for _, f := range fails {
+				ops := seq.Ops
+				if kit.OnlyCase() == "" && shrunk[f.Class] < 3 && f.OpID != "setup" {
+					shrunk[f.Class]++
+					ops, f = c13Shrink(env, layer, seq, seq.Ops, f)
+				}
+				r.Violate(f.Class, caseID, f.What, map[string]any{
+					"stack": run.st.name, "profile_hostile": seq.Hostile, "failing_check": f.OpID,
+					"ops_shrunk": seq.opStrings(ops), "ops_total": len(seq.Ops), "want": f.Want, "got": f.Got,
+				})
 			}
-			r.Violate(f.Class, caseID, f.What, map[string]any{
-				"stack": run.st.name, "profile_hostile": seq.Hostile, "failing_check": f.OpID,
-				"ops_shrunk": seq.opStrings(ops), "ops_total": len(seq.Ops), "want": f.Want, "got": f.Got,
-			})
 		}
 	}
 	for k, v := range mins {
